@@ -1,1 +1,152 @@
-/-! Property theorems for C04 (stub: not built yet). -/
+import UsualProofs.C04.Ends
+import UsualProofs.C04.RoundTrip
+/-! # Property C04 — internal regex: POSIX leftmost-longest matching
+
+Level of this property: **exploration with a proved oracle**.  The theorems below are about the
+*reference* in `Usual.C04` (declarative semantics `Matches`, executable `ends` / `llmatch`,
+parser model `parseERE`), not about the back-tracking matcher of `usual/regex.c`; the C code is
+compared with `llmatch` / `compile` on results by `checks/C04.py` (harness/C04/h.c vs
+lean/Driver/C04.lean).  The sub-match clause is the checker `Usual.C04.pmatchOk`, applied to
+the implementation's output (monitored, not proved about C). -/
+
+namespace UsualProps.C04
+open Usual.C04
+
+/-- The executable reference lists exactly the end positions of the declarative semantics:
+`[i, j)` is a word of the language of `r` (in context `e`: anchors, REG_NOTBOL/NOTEOL/
+NEWLINE/ICASE) iff `j` is produced by `ends`.  The repetition case uses that zero-length
+iterations can be dropped (`Iter.drop`). -/
+theorem ends_sound_complete (e : Env) (r : Re) (i j : Nat) :
+    j ∈ ends e r i ↔ Matches e r i j :=
+  mem_ends r i j
+
+example : let e : Env := { s := #[97, 97, 98], newline := true }
+    (3 ∈ ends e (.cat (.rep (.group (.alt (.chr 97) .bol)) 2 none) (.chr 98)) 0) ∧
+    Matches e (.cat (.rep (.group (.alt (.chr 97) .bol)) 2 none) (.chr 98)) 0 3 := by
+  refine ⟨by decide, ?_⟩
+  exact (ends_sound_complete _ _ 0 3).mp (by decide)
+
+/-- `llmatch` reports `(i, j)` iff `[i, j)` matches, nothing matches from an earlier start,
+and nothing longer matches from `i`: the POSIX leftmost-longest overall match. -/
+theorem llmatch_spec (e : Env) (r : Re) (i j : Nat) :
+    llmatch e r = some (i, j) ↔
+      Matches e r i j ∧ (∀ i', i' < i → ∀ j', ¬ Matches e r i' j') ∧ (∀ j', j' > j → ¬ Matches e r i j') := by
+  unfold llmatch
+  rw [scan_eq_some, maxOf_eq_some]
+  constructor
+  · rintro ⟨_, _, ⟨hmem, hmax⟩, hbefore⟩
+    refine ⟨(mem_ends r i j).mp hmem, ?_, ?_⟩
+    · intro i' hi' j' hm
+      exact (ends_eq_nil_iff.mp (hbefore i' (Nat.zero_le _) hi')) j' hm
+    · intro j' hj' hm
+      have := hmax j' ((mem_ends r i j').mpr hm)
+      omega
+  · rintro ⟨hm, hleft, hlong⟩
+    have hb := Matches.bounds hm
+    refine ⟨Nat.zero_le _, by omega, ⟨(mem_ends r i j).mpr hm, ?_⟩, ?_⟩
+    · intro x hx
+      have hx' := (mem_ends r i x).mp hx
+      exact Nat.le_of_not_gt (fun hgt => hlong x hgt hx')
+    · intro a' _ ha'
+      exact ends_eq_nil_iff.mpr (fun j' => hleft a' ha' j')
+
+example : llmatch { s := #[120, 97, 98, 99] } (.alt (.chr 97) (.cat (.chr 97) (.chr 98))) = some (1, 3) := by
+  decide
+
+/-- `llmatch` reports no match iff no substring of the subject belongs to the language. -/
+theorem llmatch_none (e : Env) (r : Re) :
+    llmatch e r = none ↔ ∀ i j, ¬ Matches e r i j := by
+  unfold llmatch
+  rw [scan_eq_none]
+  constructor
+  · intro h i j hm
+    have hb := Matches.bounds hm
+    exact (ends_eq_nil_iff.mp (h i (Nat.zero_le _) (by omega))) j hm
+  · intro h a _ _
+    exact ends_eq_nil_iff.mpr (h a)
+
+example : llmatch { s := #[97, 10, 98], newline := true } (.cat (.chr 97) (.cat .any (.chr 98))) = none := by
+  decide
+
+/-- **regexec reports a match iff some substring is in the language** (existence form used
+for `nmatch = 0` / REG_NOSUB, where only the return code is observable). -/
+theorem llmatch_isSome_iff (e : Env) (r : Re) :
+    (llmatch e r).isSome = true ↔ ∃ i j, Matches e r i j := by
+  constructor
+  · intro h
+    cases hl : llmatch e r with
+    | none => rw [hl] at h; cases h
+    | some p =>
+      obtain ⟨i, j⟩ := p
+      exact ⟨i, j, ((llmatch_spec e r i j).mp hl).1⟩
+  · rintro ⟨i, j, hm⟩
+    cases hl : llmatch e r with
+    | none => exact absurd hm ((llmatch_none e r).mp hl i j)
+    | some p => rfl
+
+example : (llmatch { s := #[98, 65], icase := true } (.chr 97)).isSome = true := by decide
+
+/-- The parser model inverts the ERE renderer: for every tree of the bracket-free grammar
+(`wfE`: literals, `.`, anchors, groups, alternation, `* + ? {m} {m,} {m,n}` with counts below
+`MAX_COUNT`, fewer than `MAX_GROUPS` groups) the text `renderERE r` compiles, without error, to
+the tree itself (literals case-folded under REG_ICASE) and `re_nsub` = number of groups.
+
+Full statement (not proved; covered at run time by the `t` ops of the correspondence run,
+which also exercise BRE, and by the differential run of `compile` against `usual_regcomp`):
+
+  theorem parse_render (fl : PFlags) (r : Re) (h : wf r) :
+      parseERE fl (renderERE r) = .ok (norm fl r, r.groups) ∧
+      (altFree r → parseBRE fl (renderBRE r) = .ok (norm fl r, r.groups))
+
+where `wf` also admits bracket expressions `cls bm` (with a renderer from bitmaps to bracket
+syntax: ranges, named classes, negation, the `]`/`-`/`^` placement rules) and `norm` inserts the
+groups the BRE anchors need.  Missing: a bitmap→bracket renderer with its inversion proof
+(`op_class` is modelled and differentially tested, not inverted), and the BRE context rules
+(`*`, `^`, `$` literal-vs-operator) in the token-parser induction. -/
+theorem parse_render_ere_partial (fl : PFlags) (r : Re) (h : wfE r = true) :
+    parseERE fl (renderERE r) = .ok (foldRe fl r, r.groups) :=
+  parseERE_renderERE fl r h
+
+example : wfE (.alt (.cat .bol (.rep (.group (.alt (.chr 65) (.chr 40))) 2 (some 5))) (.rep .any 1 none)) = true ∧
+    renderERE (.alt (.cat .bol (.rep (.group (.alt (.chr 65) (.chr 40))) 2 (some 5))) (.rep .any 1 none))
+      = "^(A|\\(){2,5}|.+".toUTF8.toList ∧
+    parseERE { icase := true } "^(A|\\(){2,5}|.+".toUTF8.toList =
+      .ok (.alt (.cat .bol (.rep (.group (.alt (.chr 97) (.chr 40))) 2 (some 5))) (.rep .any 1 none), 1) := by
+  refine ⟨by decide, by decide, ?_⟩
+  have := parse_render_ere_partial { icase := true }
+    (.alt (.cat .bol (.rep (.group (.alt (.chr 65) (.chr 40))) 2 (some 5))) (.rep .any 1 none)) (by decide)
+  have e : renderERE (.alt (.cat .bol (.rep (.group (.alt (.chr 65) (.chr 40))) 2 (some 5))) (.rep .any 1 none))
+      = "^(A|\\(){2,5}|.+".toUTF8.toList := by decide
+  rw [e] at this
+  exact this
+
+/-- The repaired `match_gend` (fix F24) is needed: with a minimum count, an empty iteration may
+have to be followed by a non-empty one.  `(a|^){2}` on "a" matches `[0,1)` — the unchanged C
+code reported `[0,0)`. -/
+theorem empty_iteration_then_nonempty :
+    llmatch { s := #[97] } (.rep (.group (.alt (.chr 97) .bol)) 2 (some 2)) = some (0, 1) := by
+  decide
+
+/-- REG_ICASE on bytes ≥ 0x80 (fix F22): a literal byte matches itself. -/
+theorem icase_high_byte_matches_itself (b : UInt8) (hb : b ≠ 0) :
+    llmatch { s := #[b], icase := true } (.chr b) = some (0, 1) := by
+  rw [llmatch_spec]
+  have hm : Matches { s := #[b], icase := true } (.chr b) 0 1 := by
+    refine ⟨rfl, b, rfl, ?_⟩
+    simp [chrOk]
+  refine ⟨hm, fun i' hi' => by omega, ?_⟩
+  intro j' hj' hm'
+  have := (Matches.bounds hm').2
+  simp at this
+  omega
+
+example : llmatch { s := #[0xe9], icase := true } (.chr 0xe9) = some (0, 1) :=
+  icase_high_byte_matches_itself 0xe9 (by decide)
+
+/-- Interval counts above the limit are malformed (fix F23: no 32-bit wrap of the count):
+`a{4294967297}` is rejected with REG_BADBR by the parser model. -/
+theorem count_wrap_rejected :
+    parseERE {} "a{4294967297}".toUTF8.toList = .error .badbr := by
+  decide
+
+end UsualProps.C04
